@@ -12,7 +12,11 @@ Ltac resolve_hj :=
   | Hn : nth_error ?L ?i = Some ?a, Hj : nth_error (upd ?L ?i ?x) ?j = Some ?y |- _ =>
       let E1 := fresh "E" in let E2 := fresh "E" in
       destruct (nth_error_upd_inv L i j a x y Hn Hj) as [[E1 E2]|[E1 E2]];
-      [ injection E2 as -> -> ->; try subst j
+      [ injection E2 as -> -> ->; try subst j;
+        try match goal with
+            | H1 : nth_error L i = Some a, H2 : nth_error L i = Some ?l0 |- _ =>
+                is_var l0; rewrite H1 in H2; injection H2 as <-; cbn [buf q w] in *
+            end
       | try (exfalso; apply E1; reflexivity);
         try match goal with
             | H : nth_error L j = Some ?l0 |- _ =>
@@ -70,8 +74,6 @@ Proof.
 Qed.
 
 (* ---------- per-lane facts: buffer bound; nobody is dead before the cancel ---------- *)
-Definition qalive (x : qpc) : bool := match x with QDead _ => false | _ => true end.
-Definition walive (x : wpc) : bool := match x with WDead => false | _ => true end.
 Definition lane_ok (qs : nat) (c : bool) (l : lane) : Prop :=
   length (buf l) <= qs /\ (c = false -> qalive (q l) = true /\ walive (w l) = true).
 Definition LaneInv (qs : nat) (s : state) : Prop := Forall (lane_ok qs (cancelled s)) (lanes s).
@@ -93,7 +95,7 @@ Proof.
     | Hn : nth_error (lanes s) _ = Some _ |- _ =>
         lazymatch type of Hn with _ = Some ?a =>
           lazymatch goal with
-          | _ : lane_ok qs (cancelled s) a |- _ => fail
+          | _ : lane_ok qs _ a |- _ => fail
           | _ => pose proof (Forall_nth_error _ _ _ _ HI Hn)
           end end
     end;
@@ -107,6 +109,8 @@ Proof.
     eapply push_lane_ok; eauto.
   - (* Cancel *)
     eapply Forall_impl; [|exact HI]. intros a [H1 H2]. split; [exact H1|discriminate].
+  - destruct (cancelled s); cbn [qalive] in *; intuition (auto; discriminate).
+  - destruct (cancelled s); cbn [walive] in *; intuition (auto; discriminate).
 Qed.
 
 Lemma init_laneinv qs n : LaneInv qs (init n).
@@ -241,3 +245,50 @@ Qed.
 
 Lemma upd_nth_other {A} (l : list A) j x k : k <> j -> nth_error (upd l j x) k = nth_error l k.
 Proof. intros H. apply nth_error_upd_other. auto. Qed.
+
+(* a panic is a return plus the write of the panic slot *)
+Theorem panic_like_return qs s j v s' :
+  step qs s (WEnd j (Some v)) = Some s' ->
+  exists s0, step qs s (WEnd j None) = Some s0 /\ s' = set_panic s0 v.
+Proof.
+  intros Hs. cbn [step] in *. inv_step Hs. injection Hs as <-. eexists. split; reflexivity.
+Qed.
+
+(* the worker that recovered is back at its loop top and can go on *)
+Theorem worker_survives qs s j r s' :
+  step qs s (WEnd j r) = Some s' -> step qs s' (WCheck j) <> None.
+Proof.
+  intros Hs. cbn [step] in Hs. inv_step Hs.
+  match goal with H : nth_error (lanes s) j = Some _ |- _ => pose proof (nth_error_upd_same _ _ _ (mkLane b qq WTop) H) as Hn end.
+  destruct r; injection Hs as <-; cbn [step]; st_simpl; rewrite Hn; discriminate.
+Qed.
+
+(* ---------- what a producer's recorded result means ---------- *)
+Definition pstate_ok (s : state) (x : pstate) : Prop :=
+  match x with
+  | Idle => True
+  | Pending i t => i < length (lanes s) /\ In t (pushed s)
+  | Done t ROk => In t (accepted s)
+  | Done t _ => In t (failed s)
+  end.
+Definition ProdInv (s : state) : Prop := forall p, pstate_ok s (pstate_of s p).
+
+Theorem step_prodinv qs s l s' : ProdInv s -> step qs s l = Some s' -> ProdInv s'.
+Proof.
+  intros HI Hs p'. pose proof (HI p') as HIp. unfold pstate_of, pstate_ok in *.
+  step_cases Hs s' l; unfold pstate_of in *; st_simpl; rewrite ?length_upd; try exact HIp;
+    rewrite aget_aset; destruct (Nat.eqb_spec p' p) as [->|Hne];
+    try (destruct (aget Idle (prods s) p') as [|? ?|? []]; cbn [In]; tauto);
+    cbn [In]; auto.
+  - split; [|auto]. match goal with H : (_ <? _) = true |- _ => apply Nat.ltb_lt in H; exact H end.
+Qed.
+
+Theorem reachable_prodinv qs n ls s : run qs (init n) ls = Some s -> ProdInv s.
+Proof. apply (run_invariant ProdInv qs (step_prodinv qs)). intros p. cbn. exact I. Qed.
+
+Theorem result_meaning qs n ls s p t r :
+  run qs (init n) ls = Some s -> pstate_of s p = Done t r ->
+  match r with ROk => In t (accepted s) | _ => In t (failed s) end.
+Proof.
+  intros Hr Hp. pose proof (reachable_prodinv _ _ _ _ Hr p) as H. rewrite Hp in H. destruct r; exact H.
+Qed.
